@@ -40,7 +40,7 @@ func init() {
 
 func runC18(c *mon.Ctx) {
 	// ---- reader ----
-	n := c.Pick(160, 600)
+	n := c.Pick(160, 1500)
 	for i := int64(0); i < n; i++ {
 		if !c.Mine("reader", i) {
 			continue
@@ -113,7 +113,7 @@ func runC18(c *mon.Ctx) {
 		}
 	}
 	// ---- writer ----
-	nw := c.Pick(64, 400)
+	nw := c.Pick(64, 1500)
 	for i := int64(0); i < nw; i++ {
 		if !c.Mine("writer", i) {
 			continue
